@@ -60,6 +60,29 @@ def ctxInit (total trainSize nbTrain nbTest d : Nat) : Option Nat :=
   else if nbTrain < 5 ∨ nbTest < 1 then none
   else dmerCount trainSize d
 
+/-! ### the legacy trainer's table of candidate segments (zdict.c: dictItem table, ZDICT_insertDictItem) -/
+
+/-- one candidate segment: which one (`id` stands for its position / length in the sample buffer) and the savings it is ranked by -/
+structure DictItem where
+  id : Nat
+  savings : Nat
+deriving Repr, DecidableEq, Inhabited
+
+/-- the insertion loop of ZDICT_insertDictItem, seen from the END of the used slots (`rev` = slots nextElt-1, nextElt-2, .. 1): every entry ranked strictly
+lower than the new one moves one slot down, the new one lands behind the first entry that is not (slot 0 carries savings = (U32)-1 and stops the loop) -/
+def insertFromEnd (e : DictItem) : (rev : List DictItem) → List DictItem
+  | [] => [e]
+  | x :: rest => if x.savings < e.savings then x :: insertFromEnd e rest else e :: x :: rest
+
+/-- ZDICT_insertDictItem for a candidate that merges with no entry.  `t` = the used slots 1 .. pos-1 in rank order (table->pos = t.length + 1), `maxSize` = number
+of slots of the table, slot 0 included.  `nextElt = pos`, clamped to `maxSize - 1` when the table is full: then the lowest-ranked entry is dropped, so that the
+highest slot written is `maxSize - 1`; afterwards table->pos = nextElt + 1. -/
+def insertItem (maxSize : Nat) (t : List DictItem) (e : DictItem) : List DictItem :=
+  (insertFromEnd e (t.take (maxSize - 2)).reverse).reverse
+
+/-- a whole run of insertions into the table ZDICT_initDictItem leaves (no used slot) -/
+def insertAll (maxSize : Nat) (es : List DictItem) : List DictItem := es.foldl (insertItem maxSize) []
+
 /-! ### the optimisers' shared result holder -/
 
 structure Best where
